@@ -190,9 +190,9 @@ class MergeValidateArgs:
 @contract("ext:sys.exit", props=["C17"])
 class SysExit:
     assumed = True
-    notes = "sys.exit(status): recorded as an event; it is the last statement of main() (that it does not return is not used)"
-    raises = []
-    opts = {"event": "('exit', a0)"}
+    notes = "sys.exit(status): recorded as an event, raises SystemExit, does not return"
+    raises = ["SystemExit"]
+    opts = {"event": "('exit', a0)", "noreturn": True}
 
 
 @contract("ext:sys.stdin.isatty", props=["C17"])
@@ -215,8 +215,10 @@ class MergeMain:
         "elem_assume": ["isinstance(yaml_file, str)"],           # argparse: nargs='*' of text arguments
         "invariant": ["exit_state == 0", "iters >= 1 or not consumed_stdin"],
         "body_ensures": ["implies(not exited, exit_state == 0)", "implies(exited, exit_state != 0)"]}}
-    ensures = [
-        "called('exit') == 1 and same(call_event('exit')[1], exit_state)",
-        "(called('write') == 1) == (exit_state == 0)",
-        "called('write') <= 1",
-    ]
+    # every path ends in SystemExit: raised by the argument handling (processcli, validateargs: no 'exit' event, nothing
+    # written before), or by the final sys.exit(exit_state)
+    opts = {"exc_ensures": {"SystemExit": [
+        "called('exit') <= 1 and called('write') <= 1",
+        "implies(called('exit') == 0, called('write') == 0)",
+        "implies(called('exit') == 1, same(call_event('exit')[1], exit_state) and (called('write') == 1) == (exit_state == 0))",
+    ]}}
